@@ -34,6 +34,7 @@ type loopResult struct {
 	raw0, rawHCL, rawSQL                               []string
 	rawErr                                             error
 	nTables                                            int
+	historyMsg                                         string
 }
 
 func loopOnce(script string) *loopResult {
@@ -223,6 +224,9 @@ func (r *loopResult) verdict() []viol {
 		if d := firstDiff(r.raw0, r.rawSQL); d != "" {
 			add("sql-raw-catalogue", d)
 		}
+	}
+	if r.historyMsg != "" {
+		add("history-unstable", r.historyMsg)
 	}
 	if !r.hclStable {
 		add("hcl-unstable", "second inspection prints different HCL")
